@@ -3,6 +3,7 @@
 package main
 
 import (
+	"encoding/json"
 	"flag"
 	"fmt"
 	"os"
@@ -98,6 +99,23 @@ func main() {
 		}
 		for k, v := range info.Extra {
 			extra[k] = v
+		}
+		if st := os.Getenv("VERIF_SELFTEST_JSON"); st != "" {
+			if b, err := os.ReadFile(st); err == nil {
+				var rows []map[string]any
+				if json.Unmarshal(b, &rows) == nil {
+					ok := 0
+					for _, r := range rows {
+						if r["status"] == "OK" {
+							ok++
+						}
+					}
+					extra["mutation_selftest"] = map[string]any{"entries": len(rows), "behaved_as_expected": ok, "results": rows}
+				}
+			}
+		}
+		if vs := os.Getenv("VERIF_VARIANTS"); vs != "" {
+			extra["variants_also_run"] = vs
 		}
 		exit = c.Finish(out, *tier, seed, time.Since(t0), info.Explanation, info.Trusted, info.Assumptions, extra)
 	}()
